@@ -3,7 +3,7 @@
 # operation has fault points is re-run with the k-th fault point armed (allocation failure / throwing copy, move, comparison) for
 # k = 1, 2, ... until the operation completes untouched.
 from core import *
-import props_cl, props_dq, props_obj
+import props_cl, props_dq, props_obj, props_het
 
 FA = ["--fault", "3"]
 
@@ -99,4 +99,6 @@ def plans(tier, seed):
                 "rule": "every ObjGen script ending in copy construction / copy assignment / listener addition / enqueue is re-run with the k-th fault point armed on "
                         "EventQueue, HeterEventQueue, HeterEventDispatcher and HeterCallbackList objects",
                 "assumptions": ASSUME})
+    # (a3) heterogeneous classes: a listener throws
+    out.append(props_het.c09h(tier, seed))
     return out
